@@ -53,6 +53,17 @@ def handlePath (s : DState) (toks : List String) : Option Out :=
       | some ls => some (s, ls)
       | none => some (die s)
     | none => some (s, ["noslot"])
+  | ["dist1", slot, a, b] =>
+    match slot.toNat?.bind s.slot, a.toNat?, b.toNat? with
+    | some o, some a, some b =>
+      match o.get a, o.get b with
+      | some ta, some tb =>
+        match distLine o ta tb with
+        | some l => some (s, [l])
+        | none => some (die s)
+      | _, _ => some (s, ["noterm"])
+    | none, some _, some _ => some (s, ["noslot"])
+    | _, _, _ => none
   | ["sub", src, dst, root, leaves] =>
     match src.toNat?.bind s.slot, dst.toNat?, root.toNat?, parseIds leaves with
     | some o, some d, some r, some ls =>
